@@ -1156,6 +1156,18 @@ class Machine:
                 raise NeedVariant(key, path, v)
         if isinstance(v, Int):
             return v
+        if isinstance(v, Atom) and v.ty and v.ty.get('k') == 'leaftype':
+            # the data type of an opaque leaf item (l2.d_datatype): some Type, but by contract not Null / Break / Undefined.
+            # A `match` on it sees a discriminant ranging over the other variants, like `==` sees "not equal" (l2.type_eq).
+            ad = self.prog.adts.get(v.ty.get('s'))
+            if ad and ad['kind'] == 'enum':
+                ds = ad.get('discrs') or list(range(len(ad['variants'])))
+                keep = [d_ for d_, vv in zip(ds, ad['variants']) if vv['name'] not in ('Null', 'Break', 'Undefined')]
+                nm = 'discr(%s)' % v.name
+                if nm not in cfg.st.ranges:
+                    cfg.st.ranges[nm] = iv_norm(tuple((d_, d_) for d_ in keep))
+                    cfg.st.symty[nm] = 'isize'
+                return Int.sym(nm)
         cfg.st.flags.add('imprecise:discr')
         return Atom('discr(%r)' % (v,), {'s': 'isize', 'k': 'int:isize'})
 
